@@ -310,6 +310,9 @@ def check(world, tier):
              sample={"monitor": "final", "receive at": o.loc, "proven": o.proven})
     # a-iv: receives are time bounded
     time_bounded(world, eng, a)
+    # single-port mode: the peer's ERROR reaches the worker (it is routed like any other packet of the transfer)
+    from . import C12
+    import_clause(world, tier, b, C12, "C12.d", ("stray-error",), "ERROR packets are routed / answered, not swallowed by the listener")
     return rep
 
 
